@@ -18,11 +18,32 @@ PROVED = ['[P] modpow_spec / modpow_cong / modpow_total: modpow = x^e mod m (all
           'independent exhaustive-search check of all clauses (monic, irreducible, distinct, multiplicities, product)',
           '[B] pusize_irrelevant_small / pusize_irrelevant_big: p > deg f (all f over F_5 deg <= 4, F_7 deg <= 3; p = nextprime(2^64), '
           'coefficients in {0,1,2}, deg <= 2): squarefree returns the same for every pusize tried incl. 0, no panic',
-          '[P] squarefree_zero_panics']
-NOT_PROVED = ['e_i >= 1 in the release profile (a wrapped e *= pusize can be 0 for absurd pusize)',
-              'irreducibility and pairwise distinctness of the returned factors, product congruence for all inputs '
-              '(squarefree + distinct-degree + equal-degree correctness in general)',
-              'pusize irrelevance for all p > deg f (only the bounded [B] statements)',
+          '[P] squarefree_zero_panics',
+          '[P] squarefree_product: p prime, f mod p <> 0, pusize = p or p > deg f (and dev profile or at most 2^64 coefficients, so that no multiplicity wraps): '
+          'the pairs returned by the square-free stage multiply back to f modulo p up to a unit constant. Proved in F_p[x] (MathComp {poly \'F_p}) with the loop '
+          'invariants result * (t v^(k+1))^e ~ f and t | t\' v; the p-th-root step by Fermat + freshman\'s dream (q^p = q(X^p) over F_p)',
+          '[P] factorize_mod_p_product: the product clause for all inputs and every draw stream: if factorize_mod_p returns (g_i, e_i) then '
+          'f = lc(f mod p) * prod g_i^e_i modulo p (same side conditions); with factorize_normalised: every clause except irreducibility and distinctness',
+          '[P] pusize_irrelevant: for every prime p > deg f, squarefree and factorize_mod_p have the same outcome (value, panic, fuel) for any two pusize values, 0 included '
+          '(the p-th-root branch is unreachable: a non-constant polynomial with zero derivative has degree >= p)',
+          '[P] factorize_mod_p_irreducible: for every prime p, f mod p <> 0, every draw stream, both profiles (pusize = p or p > deg f): if factorize_mod_p returns, '
+          'every g_i is irreducible modulo p and the g_i are pairwise distinct. Proved in F_p[x]: the radical (product of the square-free parts) is square-free and is carried '
+          'unchanged up to units through the later stages (pairwise coprime factors); F_p[x]/(g) is a field with p^deg g elements (MathComp irredp_FAdjoin), hence '
+          'g | X^(p^deg g) - X and an irreducible divisor of X^(p^d) - X has degree <= d; a piece of degree in [d, 2d) whose irreducible factors all have degree d is irreducible',
+          '[P] degree_separates: distinct-degree stage on a square-free reduced input: every returned (a, d) has d >= 1 and all irreducible factors of a of degree exactly d',
+          '[P] degree_divides: distinct-degree stage on any reduced non-zero input: every a_d found by the loop divides X^(p^d) - X modulo p',
+          '[P] squarefree_total / degree_total: the deterministic stages return (no panic, the supplied fuel suffices): squarefree for f mod p <> 0 with at most 2^64 coefficients '
+          'and pusize = p or p > deg f (both profiles: no multiplicity exceeds deg f), degree on every reduced non-zero input',
+          '[P] factorize_mod_p_no_panic: same hypotheses, every draw stream, both profiles: the outcome of factorize_mod_p is a value or the model\'s OutOfFuel (bounded retry loops of the '
+          'equal-degree stage only) -- never a panic; in particular assert_eq!(factor.deg(), d) cannot fire (every piece is irreducible of degree exactly d)',
+          '[P] profile_irrelevant / multiplicities_positive: same hypotheses: the release profile computes exactly what the dev profile computes (nothing wraps), '
+          'so e_i >= 1 in both profiles',
+          '[P] factorize_mod_p_constant: f mod p a non-zero constant gives the empty list without a draw',
+          '[P] pusize_irrelevant_beyond_word: for a prime p >= 2^64 and at most 2^64 coefficients any two pusize values (0 included) give the same outcome']
+NOT_PROVED = ['e_i >= 1 in the release profile for absurd pusize (pusize <> p with p <= deg f) or more than 2^64 coefficients: a wrapped e *= pusize can be 0',
+              'all clauses when pusize <> p and p <= deg f (the code then reads wrong coefficients or divides by zero: outside the contract); '
+              'the product clause in the release profile for coefficient vectors longer than 2^64',
+              'fuel sufficiency of the p = 2 trace-map splitting loop (length + 2 attempts t = x, x^3, ...) and of the recursion depth of final_split: covered by the OutOfFuel alternative of no_panic only',
               'termination for all draw streams (false: only with probability 1)']
 RULE = ('factorize_mod_p on every coefficient vector up to a degree bound over F_2, F_3, F_5, F_7 (pusize = p); random and structured '
         'polynomials of degree <= 12 (thorough: 16) over p in {11, 13, 101, 65537, 2^61-1, nextprime(2^64)}: planted products of distinct '
@@ -31,8 +52,8 @@ RULE = ('factorize_mod_p on every coefficient vector up to a degree bound over F
         'separately; non-trivial = f mod p non-constant. Random draws of the implementation are logged and replayed by the model.')
 CLAIM = dict(
     technique='Coq proof about the Gallina model of src/poly_mod/{prim,factorize_mod_p}.rs + extracted-model-vs-implementation correspondence with replayed random draws + independent oracle',
-    text='Proved for all inputs: the arithmetic layer (modpow, poly_mod, poly_divrem for prime p, poly_gcd divides) and the normalisation clause of the factoriser (monic, reduced, degree >= 1, multiplicity >= 1). Proved on bounded domains by vm_compute: full correctness of factorize_mod_p over F_2 up to degree 8, independence of pusize for p > deg f. The model is tied to /repo by running the extracted model and impl_svc on the same inputs and the same random bytes.',
-    note='Not proved for all inputs: irreducible/distinct/product clauses of the factoriser (checked by the independent oracle on every explored input, always_oracle); termination holds with probability 1 only.',
+    text='Proved for all inputs: the arithmetic layer (modpow, poly_mod, poly_divrem for prime p, poly_gcd divides), the normalisation clause of the factoriser (monic, reduced, degree >= 1, multiplicity >= 1), the product clause (f = lc(f mod p) * prod g_i^e_i modulo p for every prime p, f mod p <> 0, every draw stream, pusize = p or p > deg f; likewise for the square-free, distinct-degree and equal-degree stages separately), irreducibility modulo p and pairwise distinctness of the returned g_i (same hypotheses) -- i.e. every clause of the property as partial correctness --, the separation of degrees by the distinct-degree stage on square-free inputs, and the independence of pusize for every prime p > deg f. Proved on bounded domains by vm_compute: full correctness (incl. termination without draws) of factorize_mod_p over F_2 up to degree 8. The model is tied to /repo by running the extracted model and impl_svc on the same inputs and the same random bytes.',
+    note='The clauses are proved as partial correctness (what holds whenever factorize_mod_p returns) together with: no panic for any input and draw stream, and termination of the deterministic stages squarefree and degree; termination of the Cantor-Zassenhaus retry loop holds with probability 1 only and is not a theorem (the independent oracle checks every clause on every explored input, always_oracle).',
     ref='DESIGN.md section 4, C08')
 TIMEOUT = 1200
 
